@@ -520,7 +520,9 @@ def c05(tier):
               "400-token programs), every token of every declaration except the proc/type keywords is deleted, replaced by and "
               "preceded by every token of the 34-spelling SPL token alphabet (Damage action); the real parser must return the "
               "sub-trees of all undamaged declarations unchanged (ranges shifted behind the damage), put every syntax diagnostic "
-              "inside the damaged declaration's region, and keep the table entries of the undamaged declarations.")
+              "inside the damaged declaration's region, and keep the table entries of the undamaged declarations. Every damage is replayed "
+              "twice: tokens only, and with a doc comment line in front of every global declaration (the comment belongs to the "
+              "declaration behind it).")
     vlib.build_harness()
     cfg = "MC_SplGrammar_n15" if tier == "quick" else "MC_SplGrammar_n18"
     res = vlib.tlc("MC_SplGrammar", cfg + ".cfg", "c05_" + cfg, timeout=6000, heap="16g")
@@ -822,7 +824,8 @@ def c16(tier):
 def c01(tier):
     c = Check("C01", tier)
     c.rule = ("SplSession continues finished programs of the derivation machine with edits: EditTokens(i, j, repl) over the 36-spelling token "
-              "alphabet, character-level edits that change token boundaries, batches. TLC explores EVERY token edit of every program up to "
+              "alphabet (plus, harness-side, literals outside the core and the comment starter `//` replacing / preceding every token), "
+              "character-level edits that change token boundaries or comment the rest of the line out, batches. TLC explores EVERY token edit of every program up to "
               "the token bound as a transition (edit counts must agree with the replay) and simulates histories of 4 edits on 120-token "
               "programs; further base documents: all single-fault typed programs (documents carrying build/semantic diagnostics), every "
               "single-token damage of every small program (documents carrying error nodes; two-step histories), and all texts of the "
